@@ -193,17 +193,25 @@ theorem slot_correct (cfg : Cfg) (hb : BsGood cfg) (s : Slot) (hg : SlotGood cfg
 
 /-! ### 4. decidable soundness of the facts -/
 
+/-- the type-change branch cannot meet a treasure that just became void -/
+def voidSafeB (cfg : Cfg) : Bool := !(cfg.typeChangeDetected && cfg.setVoidClearsTyped)
+
+theorem voidSafe_of (cfg : Cfg) (h : voidSafeB cfg = true) :
+    cfg.typeChangeDetected = false ∨ cfg.setVoidClearsTyped = false := by
+  unfold voidSafeB at h
+  cases h1 : cfg.typeChangeDetected <;> cases h2 : cfg.setVoidClearsTyped <;> simp_all
+
 /-- the facts about index type `s` are the sound ones -/
 def slotGoodB (cfg : Cfg) : Slot → Bool
-  | .key => cfg.resortKey == .own && !cfg.typeChangeDetected
+  | .key => cfg.resortKey == .own && voidSafeB cfg
   | .created => cfg.resortCreated == .own && cfg.coldFilterCreated && cfg.addGuardCreated &&
-      cfg.updRefreshCreated && !cfg.typeChangeDetected
+      cfg.updRefreshCreated && voidSafeB cfg
   | .updated => cfg.resortUpdated == .own && cfg.coldFilterUpdated && cfg.addGuardUpdated &&
-      cfg.updRefreshUpdated && !cfg.typeChangeDetected
+      cfg.updRefreshUpdated && voidSafeB cfg
   | .expire => cfg.resortExpire == .own && cfg.coldFilterExpire && cfg.addGuardExpire &&
-      cfg.updRefreshExpireOnFlag && !cfg.typeChangeDetected
+      cfg.updRefreshExpireOnFlag && voidSafeB cfg
   | .value _ => !cfg.valueShared && cfg.resortValue == .own && cfg.coldFilterValueType && cfg.addGuardValueType &&
-      cfg.updRefreshValue && !cfg.typeChangeDetected
+      cfg.updRefreshValue && voidSafeB cfg
 
 def bsGoodB (cfg : Cfg) : Bool :=
   cfg.bsAscFrom == .lt && cfg.bsAscTo == .lt && cfg.bsDescTo == .lt && cfg.bsDescFrom == .lt
@@ -215,35 +223,35 @@ theorem bsGood_of (cfg : Cfg) (h : bsGoodB cfg = true) : BsGood cfg := by
 theorem slotGood_of (cfg : Cfg) (s : Slot) (h : slotGoodB cfg s = true) : SlotGood cfg s := by
   cases s with
   | key =>
-    simp only [slotGoodB, Bool.and_eq_true, beq_iff_eq, Bool.not_eq_true'] at h
+    simp only [slotGoodB, Bool.and_eq_true, beq_iff_eq] at h
     exact { phys := rfl, cold := fun _ => rfl, guard := fun _ => rfl,
             resort := by simp [incrSort, h.1],
             exclusive := by intro s' hs'; cases s' <;> simp_all [phys],
-            noTypeBranch := h.2,
+            voidSafe := voidSafe_of cfg h.2,
             stable := fun o rq => Or.inr (by simp [attrEq, mergeRec]) }
   | created =>
-    simp only [slotGoodB, Bool.and_eq_true, beq_iff_eq, Bool.not_eq_true'] at h
+    simp only [slotGoodB, Bool.and_eq_true, beq_iff_eq] at h
     obtain ⟨⟨⟨⟨h1, h2⟩, h3⟩, h4⟩, h5⟩ := h
     exact { phys := rfl, cold := fun _ => by simp [coldIncl, carries, h2], guard := fun _ => by simp [addGuard, carries, h3],
             resort := by simp [incrSort, h1],
             exclusive := by intro s' hs'; cases s' <;> simp_all [phys],
-            noTypeBranch := h5,
+            voidSafe := voidSafe_of cfg h5,
             stable := fun o rq => Or.inl (by simp [refreshes, h4]) }
   | updated =>
-    simp only [slotGoodB, Bool.and_eq_true, beq_iff_eq, Bool.not_eq_true'] at h
+    simp only [slotGoodB, Bool.and_eq_true, beq_iff_eq] at h
     obtain ⟨⟨⟨⟨h1, h2⟩, h3⟩, h4⟩, h5⟩ := h
     exact { phys := rfl, cold := fun _ => by simp [coldIncl, carries, h2], guard := fun _ => by simp [addGuard, carries, h3],
             resort := by simp [incrSort, h1],
             exclusive := by intro s' hs'; cases s' <;> simp_all [phys],
-            noTypeBranch := h5,
+            voidSafe := voidSafe_of cfg h5,
             stable := fun o rq => Or.inl (by simp [refreshes, h4]) }
   | expire =>
-    simp only [slotGoodB, Bool.and_eq_true, beq_iff_eq, Bool.not_eq_true'] at h
+    simp only [slotGoodB, Bool.and_eq_true, beq_iff_eq] at h
     obtain ⟨⟨⟨⟨h1, h2⟩, h3⟩, h4⟩, h5⟩ := h
     exact { phys := rfl, cold := fun _ => by simp [coldIncl, carries, h2], guard := fun _ => by simp [addGuard, carries, h3],
             resort := by simp [incrSort, h1],
             exclusive := by intro s' hs'; cases s' <;> simp_all [phys],
-            noTypeBranch := h5,
+            voidSafe := voidSafe_of cfg h5,
             stable := by
               intro o rq
               by_cases he : rq.expire = 0
@@ -256,8 +264,22 @@ theorem slotGood_of (cfg : Cfg) (s : Slot) (h : slotGoodB cfg s = true) : SlotGo
             guard := fun _ => by simp [addGuard, carries, h3],
             resort := by simp [incrSort, h1],
             exclusive := by intro s' hs'; cases s' <;> simp_all [phys],
-            noTypeBranch := h5,
-            stable := fun o rq => Or.inl (by simp [refreshes, h4]) }
+            voidSafe := voidSafe_of cfg h5,
+            stable := by
+              intro o rq
+              -- re-filed whenever `contentChanged` is up; when it is not, the content did not move
+              cases hc : (mergeRec cfg (some o) rq).contFlag
+              · refine Or.inr ?_
+                simp only [mergeRec, Bool.or_eq_false_iff, Bool.and_eq_false_iff, Bool.not_eq_false',
+                  bne_eq_false_iff_eq] at hc
+                simp only [attrEq, mergeRec]
+                rcases hc.2 with hkeep | hsame
+                · simp [hkeep]
+                · by_cases hkeep : (rq.ct == CT.void && !cfg.setVoidClearsTyped) = true
+                  · simp [hkeep]
+                  · simp only [hkeep, Bool.false_eq_true, if_false]
+                    exact ⟨hsame.2.symm, hsame.1.symm⟩
+              · exact Or.inl (by simp [refreshes, h4, hc]) }
 
 /-- all facts sound -/
 def goodB (cfg : Cfg) : Bool :=
@@ -392,7 +414,9 @@ def witnesses : List (String × List Op × Query) := [
   ("C07-window-bounds-operator", [setOp "k1" .i64 1 3 0 0, setOp "k2" .i64 2 5 0 0], windowRead .created false (some 3) none),
   ("C07-cold-build-no-zero-filter", [setOp "k1" .i64 1 0 0 0, setOp "k2" .i64 2 2 2 2], fullRead .created true),
   ("C07-cold-build-no-zero-filter", [setOp "k1" .i64 1 0 0 0, setOp "k2" .i64 2 2 2 2], fullRead .updated true),
-  ("C07-cold-build-no-zero-filter", [setOp "k1" .i64 1 0 0 0, setOp "k2" .i64 2 2 2 2], fullRead .expire true)]
+  ("C07-cold-build-no-zero-filter", [setOp "k1" .i64 1 0 0 0, setOp "k2" .i64 2 2 2 2], fullRead .expire true),
+  ("C07-void-dropped-from-key-index",
+    [setOp "k1" .i64 1 0 0 0, .read (fullRead .key true), setOp "k1" .void 0 0 0 0], fullRead .key true)]
 
 /-- the findings whose witness fails under `cfg` -/
 def findings (cfg : Cfg) : List String :=
@@ -405,40 +429,46 @@ theorem refutes_of_findings (cfg : Cfg) (h : findings cfg ≠ []) : ¬ Holds cfg
   obtain ⟨w, hw⟩ := List.exists_mem_of_ne_nil _ this
   exact refutes_of_witness cfg w.2.1 w.2.2 (List.mem_filter.mp hw).2
 
-/-- the facts of the tree as of this writing -/
-def current : Cfg := {
+/-- the facts of the tree before the four `fix:` commits on the index maintenance -/
+def beforeFix : Cfg := {
   bsAscFrom := .lt, bsAscTo := .lt, bsDescTo := .lt, bsDescFrom := .lt,
   resortKey := .own, resortCreated := .own, resortUpdated := .own, resortExpire := .own, resortValue := .int64,
   coldFilterCreated := true, coldFilterUpdated := true, coldFilterExpire := true, coldFilterValueType := false,
   addGuardCreated := true, addGuardUpdated := true, addGuardExpire := true, addGuardValueType := false,
   updRefreshCreated := false, updRefreshUpdated := false, updRefreshValue := false, updRefreshExpireOnFlag := true,
-  typeChangeDetected := false, valueShared := true, flagsSticky := true }
+  typeChangeDetected := false, valueShared := true, flagsSticky := true, setVoidClearsTyped := false }
+
+/-- the facts of the tree as of this writing: `SaveFunction` re-files a treasure in the built
+    creation-time or update-time index when that timestamp changes, and any add to / content change in
+    a built value index drops it (the next read rebuilds it with the requested type's comparator) -/
+def current : Cfg := { beforeFix with
+  setVoidClearsTyped := true, resortValue := .invalidate, updRefreshCreated := true, updRefreshUpdated := true, updRefreshValue := true }
 
 /-- the repaired facts -/
-def repaired : Cfg := { current with
+def repaired : Cfg := { beforeFix with
   resortValue := .own, coldFilterValueType := true, addGuardValueType := true,
   updRefreshCreated := true, updRefreshUpdated := true, updRefreshValue := true, valueShared := false }
 
 /-- Closed witness: after `k1` (UpdatedAt 1) and `k2` (UpdatedAt 2) were indexed, moving `k1` to
     UpdatedAt 5 leaves the update-time index answering `[k1, k2]`. -/
 theorem witness_updated_stale :
-    (answer current (run current [setOp "k1" .i64 1 1 1 0, setOp "k2" .i64 2 2 2 0, .read (fullRead .updated true),
+    (answer beforeFix (run beforeFix [setOp "k1" .i64 1 1 1 0, setOp "k2" .i64 2 2 2 0, .read (fullRead .updated true),
         setOp "k1" .i64 1 0 5 0]) (fullRead .updated true)).map (·.map (fun r => (r.key, r.updated)))
       = some [("k1", 5), ("k2", 2)] := by decide
 
 theorem witness_created_stale :
-    (answer current (run current [setOp "k1" .i64 1 1 0 0, setOp "k2" .i64 2 2 0 0, .read (fullRead .created true),
+    (answer beforeFix (run beforeFix [setOp "k1" .i64 1 1 0 0, setOp "k2" .i64 2 2 0 0, .read (fullRead .created true),
         setOp "k1" .i64 1 5 0 0]) (fullRead .created true)).map (·.map (fun r => (r.key, r.created)))
       = some [("k1", 5), ("k2", 2)] := by decide
 
 theorem witness_value_update_stale :
-    (answer current (run current [setOp "k1" .i64 1 0 0 0, setOp "k2" .i64 2 0 0 0, .read (fullRead (.value .i64) true),
+    (answer beforeFix (run beforeFix [setOp "k1" .i64 1 0 0 0, setOp "k2" .i64 2 0 0 0, .read (fullRead (.value .i64) true),
         setOp "k1" .i64 3 0 0 0]) (fullRead (.value .i64) true)).map (·.map (fun r => (r.key, r.val)))
       = some [("k1", 3), ("k2", 2)] := by decide
 
 /-- inserting 2 into the float index [1, 3] re-sorts "as int64", which fails: the answer is [1, 3, 2] -/
 theorem witness_value_insert_wrong_comparator :
-    (answer current (run current [setOp "k1" .f64 1 0 0 0, setOp "k2" .f64 3 0 0 0, .read (fullRead (.value .f64) true),
+    (answer beforeFix (run beforeFix [setOp "k1" .f64 1 0 0 0, setOp "k2" .f64 3 0 0 0, .read (fullRead (.value .f64) true),
         setOp "k3" .f64 2 0 0 0]) (fullRead (.value .f64) true)).map (·.map (fun r => (r.key, r.val)))
       = some [("k1", 1), ("k2", 3), ("k3", 2)] := by decide
 
@@ -447,9 +477,12 @@ theorem witness_value_mixed_types :
     (answer current (run current [setOp "k1" .str 1 0 0 0, setOp "k2" .f64 3 0 0 0])
         (fullRead (.value .str) true)).map (·.length) = some 2 := by decide
 
-theorem findings_current : findings current =
+theorem findings_beforeFix : findings beforeFix =
     ["C07-updated-update-stale", "C07-created-update-stale", "C07-value-update-stale",
      "C07-value-insert-wrong-comparator", "C07-value-index-mixed-types"] := by decide
+
+/-- after the fixes only the shared, unfiltered value index remains -/
+theorem findings_current : findings current = ["C07-value-index-mixed-types"] := by decide
 
 theorem refutes_current : ¬ Holds current := refutes_of_findings current (by rw [findings_current]; simp)
 
@@ -461,12 +494,30 @@ example : findings { repaired with bsAscFrom := .le } = ["C07-window-bounds-oper
 example : findings { repaired with bsDescTo := .le } = ["C07-window-bounds-operator"] := by decide
 example : findings { repaired with coldFilterExpire := false } = ["C07-cold-build-no-zero-filter"] := by decide
 theorem holds_repaired : Holds repaired := holds_of_good repaired (by decide)
+/-- …also when the `SetContent…` setters are repaired to raise `contentTypeChanged` (the first
+    `SaveFunction` branch becomes reachable): a Set never turns typed content into void -/
+example : goodB { repaired with typeChangeDetected := true } = true := by decide
+/-- …but not together with a `SetContentVoid` that clears typed content: the type-change branch
+    then drops the void treasure from every index, the key index included -/
+example : goodB { repaired with typeChangeDetected := true, setVoidClearsTyped := true } = false := by decide
+example : findings { repaired with typeChangeDetected := true, setVoidClearsTyped := true } = ["C07-void-dropped-from-key-index"] := by decide
 
-/-- non-vacuity of the partial theorem for the current facts: the key and expiration-time
-    indexes satisfy it (and the other index types do not) -/
+/-- non-vacuity of the partial theorem: before the fixes the key and expiration-time indexes
+    satisfy it; now all four non-value index types do, the value indexes still do not -/
+example : slotGoodB beforeFix .key = true ∧ slotGoodB beforeFix .expire = true ∧
+    slotGoodB beforeFix .created = false ∧ slotGoodB beforeFix .updated = false ∧
+    slotGoodB beforeFix (.value .i64) = false := by decide
 example : slotGoodB current .key = true ∧ slotGoodB current .expire = true ∧
-    slotGoodB current .created = false ∧ slotGoodB current .updated = false ∧
+    slotGoodB current .created = true ∧ slotGoodB current .updated = true ∧
     slotGoodB current (.value .i64) = false := by decide
+
+/-- **Partial theorem for the current tree**: every read of the key, creation-time, update-time
+    and expiration-time index, after every history, is a correct page. -/
+theorem holds_current_nonvalue :
+    HoldsFor current (fun s => s = .key ∨ s = .created ∨ s = .updated ∨ s = .expire) := by
+  intro hist q res hs ha
+  refine holds_partial current (by decide) hist q res ?_ ha
+  rcases hs with h | h | h | h <;> rw [h] <;> decide
 
 /-- non-vacuity of `bounds_correct`: a sorted slice with duplicates, window [3,7) -/
 example : findBounds current true [1, 3, 3, 5, 7, 9] (some 3) (some 7) = (1, 3) := by decide
@@ -480,7 +531,7 @@ inductive FCmp where
   deriving DecidableEq, Repr
 
 inductive FResort where
-  | own | int64 | none | unknown
+  | own | int64 | none | invalidate | unknown
   deriving DecidableEq, Repr
 
 structure Facts where
@@ -493,6 +544,9 @@ structure Facts where
   resortUpdated : FResort
   resortExpire : FResort
   resortValue : FResort
+  /-- the gateway converts window bounds and record timestamps with their nanosecond part
+      (`AsTime()`), as the model's integer timestamps assume -/
+  timestampsFullPrecision : Tri
   /-- `GetManyFromOrderPosition` has exactly the modelled arithmetic -/
   pageArith : Tri
   /-- `GetTreasuresByBeacon` replaces limit 0 by the record count -/
@@ -516,6 +570,7 @@ structure Facts where
   typeChangeDetected : Tri
   valueShared : Tri
   flagsSticky : Tri
+  setVoidClearsTyped : Tri
   /-- `GetBeacon` (used by ShiftMatching, C11) serves all eleven value index types / builds the
       requested type: recorded, not used by the index-read path -/
   getBeaconServesAllValueTypes : Tri
@@ -529,6 +584,7 @@ def cmpOf : FCmp → Cmp
 def resortOf : FResort → Resort
   | .own => .own
   | .int64 => .int64
+  | .invalidate => .invalidate
   | _ => .none
 
 def cfgOf (f : Facts) : Cfg := {
@@ -541,7 +597,8 @@ def cfgOf (f : Facts) : Cfg := {
   addGuardExpire := f.addGuardExpire.isYes, addGuardValueType := f.addGuardValueType.isYes,
   updRefreshCreated := f.updRefreshCreated.isYes, updRefreshUpdated := f.updRefreshUpdated.isYes,
   updRefreshValue := f.updRefreshValue.isYes, updRefreshExpireOnFlag := f.updRefreshExpireOnFlag.isYes,
-  typeChangeDetected := f.typeChangeDetected.isYes, valueShared := f.valueShared.isYes, flagsSticky := f.flagsSticky.isYes }
+  typeChangeDetected := f.typeChangeDetected.isYes, valueShared := f.valueShared.isYes, flagsSticky := f.flagsSticky.isYes,
+  setVoidClearsTyped := f.setVoidClearsTyped.isYes }
 
 /-- a fact the model depends on was not recognised in the source -/
 def unknownFact (f : Facts) : Option String :=
@@ -549,6 +606,7 @@ def unknownFact (f : Facts) : Option String :=
     some "a binary search of findTimeRangeBounds" else
   if f.resortKey == .unknown || f.resortCreated == .unknown || f.resortUpdated == .unknown ||
      f.resortExpire == .unknown || f.resortValue == .unknown then some "an addTo…Beacon function" else
+  if !f.timestampsFullPrecision.isYes then some "gateway timestamp conversion" else
   if !f.pageArith.isYes then some "GetManyFromOrderPosition arithmetic" else
   if !f.limitZeroAll.isYes then some "GetTreasuresByBeacon limit==0" else
   if !f.comparatorsStandard.isYes then some "a SortBy… comparator" else
@@ -556,7 +614,7 @@ def unknownFact (f : Facts) : Option String :=
   if [f.coldFilterCreated, f.coldFilterUpdated, f.coldFilterExpire, f.coldFilterValueType,
       f.addGuardCreated, f.addGuardUpdated, f.addGuardExpire, f.addGuardValueType,
       f.updRefreshCreated, f.updRefreshUpdated, f.updRefreshValue, f.updRefreshExpireOnFlag,
-      f.typeChangeDetected, f.valueShared, f.flagsSticky].any (· == .unknown) then
+      f.typeChangeDetected, f.valueShared, f.flagsSticky, f.setVoidClearsTyped].any (· == .unknown) then
     some "treasuresForBeacon / addTreasureToBeacons / SaveFunction / treasure flags" else
   none
 
